@@ -876,6 +876,85 @@ MUTANTS = [
          old='                let task = pending_commits.pop().unwrap();\n\n                current_batch\n                    .db_write_batch\n                    .consume_serialization_buffer(task.serialize_buffer);\n\n                // push into current batch\n                current_batch.processed_logical_batch.push(task.write_buffer);\n\n                current_batch.expected_epoch.0 += 1;\n', new="                let task = pending_commits.pop().unwrap();\n\n                Self::apply_task(current_batch, task);\n",
          edits_extra=[("    fn process_pending_commits(", '    fn apply_task(current_batch: &mut CurrentBatch<Db>, task: WriteTask<Db>) {\n        current_batch\n            .db_write_batch\n            .consume_serialization_buffer(task.serialize_buffer);\n        if !task.write_buffer.active {\n            return;\n        }\n        current_batch.processed_logical_batch.push(task.write_buffer);\n        current_batch.expected_epoch.0 += 1;\n    }\n\n    fn process_pending_commits(')],
          expect="C10.a/process_pending_commits/apply-only-expected-epoch"),
+    dict(id="C12.n-vecdeque-loop-bound-clamped-with-the-capacity", prop="C12", file="crates/serialize/src/decode.rs",
+         old="""        let len = decoder.read_usize()?;
+        let mut deque = Self::with_capacity(len);""",
+         new="""        let len = decoder.read_usize()?.min(1 << 20);
+        let mut deque = Self::with_capacity(len);""",
+         expect="C12.n/containers/repetition-count-is-the-decoded-length"),
+    dict(id="C12.n-hashset-loop-stops-one-short-of-max", prop="C12", file="crates/serialize/src/decode.rs",
+         old="""        let len = decoder.read_usize()?;
+        let mut set = Self::with_capacity_and_hasher(len, S::default());""",
+         new="""        let len = decoder.read_usize()?.saturating_sub(usize::from(std::mem::size_of::<T>() == 0));
+        let mut set = Self::with_capacity_and_hasher(len, S::default());""",
+         expect="C12.n/containers/repetition-count-is-the-decoded-length"),
+    dict(id="C04.j-store-previous-epoch", prop="C04", file=CG + "database/sync.rs",
+         old="            .insert((), Timestamp(new_timestamp), &mut write_buffer)",
+         new="            .insert((), Timestamp(prev), &mut write_buffer)",
+         expect="C04.j/session/epoch-stored-with-session"),
+    # ------------------------------------------------------------------ round 6 (fourth session)
+    dict(id="C02.i-abort-callee-guard-conjoined", prop="C02", file=CG + "computing.rs",
+         old="        if request.in_flight > 0 || request.kept {", new="        if request.in_flight > 0 && request.kept {",
+         expect="C02.i/abort_callee/undone-only-when-no-request-runs-and-none-completed"),
+    dict(id="C02.i-abort-callee-ignores-completed-twin", prop="C02", file=CG + "computing.rs",
+         old="        if request.in_flight > 0 || request.kept {", new="        if request.in_flight > 0 {",
+         expect="C02.i/abort_callee/undone-only-when-no-request-runs-and-none-completed"),
+    dict(id="C02.i-keep-callee-does-not-raise-kept", prop="C02", file=CG + "computing.rs",
+         old="            request.kept = true;\n", new="",
+         expect="C02.i/abort_callee/undone-only-when-no-request-runs-and-none-completed"),
+    dict(id="C10.h-flush-replaces-the-whole-current-batch", prop="C10", file=ST + "write_manager/write_behind.rs",
+         old='        let to_commit_db_batch =\n            std::mem::replace(&mut self.db_write_batch, db.write_batch());\n        let to_commit_logical_batches =\n            std::mem::take(&mut self.processed_logical_batch);\n',
+         new="""        let fresh = CurrentBatch { processed_logical_batch: Vec::new(), db_write_batch: db.write_batch(), expected_epoch: Epoch(0) };
+        let CurrentBatch { processed_logical_batch: to_commit_logical_batches, db_write_batch: to_commit_db_batch, .. } = std::mem::replace(self, fresh);
+""",
+         expect="C10.h/expected_epoch/only-advanced-by-one-after-applying"),
+    dict(id="C07.i-flush-replaces-the-whole-current-batch", prop="C07", file=ST + "write_manager/write_behind.rs",
+         old='        let to_commit_db_batch =\n            std::mem::replace(&mut self.db_write_batch, db.write_batch());\n        let to_commit_logical_batches =\n            std::mem::take(&mut self.processed_logical_batch);\n',
+         new="""        let fresh = CurrentBatch { processed_logical_batch: Vec::new(), db_write_batch: db.write_batch(), expected_epoch: Epoch(0) };
+        let CurrentBatch { processed_logical_batch: to_commit_logical_batches, db_write_batch: to_commit_db_batch, .. } = std::mem::replace(self, fresh);
+""",
+         expect="C07.i/expected_epoch/only-advanced-by-one-after-applying"),
+    dict(id="C11.j-rocksdb-put-writes-through", prop="C11", file=ST + "kv_database/rocksdb.rs",
+         old="        // accumulate estimated size\n        self.estimated_size += key_buffer.len() + value_buffer.len();\n",
+         new="        // accumulate estimated size\n        self.estimated_size += key_buffer.len() + value_buffer.len();\n        if self.estimated_size > (64 << 20) {\n            self.db.db.write(&self.batch).expect(\"write should not fail\");\n            self.batch.clear();\n        }\n",
+         expect="C11.j/rocksdb/store-is-written-only-by-commit"),
+    dict(id="C16.j-lock-pinned-only-while-held", prop="C16", file=CG + "query_lock_manager.rs",
+         old="        Arc::strong_count(&value.0) > 1", new="        value.0.try_write().is_err()",
+         expect="C16.j/lock-pin-predicate"),
+    dict(id="C03.l-clean-query-rebuilds-node-info-with-swapped-fingerprints", prop="C03", file=CG + "database.rs",
+         old="""            let mut current_node_info = self.node_info().await.unwrap();
+
+            current_node_info.transitive_firewall_callees = x;
+            current_node_info.transitive_firewall_callees_fingerprint = self
+                .engine()
+                .hash(&current_node_info.transitive_firewall_callees);
+
+            Some((current_node_info, new_observations))""",
+         new="""            let current_node_info = self.node_info().await.unwrap();
+            let tfc_fingerprint = self.engine().hash(&x);
+
+            Some((NodeInfo::new(tfc_fingerprint, current_node_info.value_fingerprint(), x), new_observations))""",
+         expect="C03.l/clean_query/tfc-fingerprint-of-new-tfc"),
+    dict(id="C08.a-dirty-marks-in-a-batch-of-their-own", prop="C08", file=CG + "slow_path.rs",
+         old="""                    write_buffer = self
+                        .engine()
+                        .dirty_propagate_from_batch(
+                            std::iter::once(*self.query_id()),
+                            write_buffer,
+                        )
+                        .await;
+""",
+         new="""                    let dirty_buffer = self
+                        .engine()
+                        .dirty_propagate_from_batch(
+                            std::iter::once(*self.query_id()),
+                            self.engine().new_write_transaction(),
+                        )
+                        .await;
+                    self.engine().submit_write_buffer(dirty_buffer);
+""",
+         edits_extra=[("                let mut write_buffer = self.engine().new_write_transaction();\n\n                // if fingerprint has changed", "                let write_buffer = self.engine().new_write_transaction();\n\n                // if fingerprint has changed")],
+         expect="C08.a/execute_query/value-shares-batch-with-dirty-marks"),
     dict(id="C14.f-name-hash-skips-last-byte-of-each-block", prop="C14", file="crates/stable_type_id/src/lib.rs",
          old="            | ((bytes[start + 7] as u64) << 56)", new="",
          expect="C14.f/witness/every-name-byte-and-the-length-reach-the-id"),
